@@ -17,7 +17,7 @@ EVIDENCE = dict(
     trusted=["Lean kernel; standard axioms", "CPython: the Mersenne Twister is a function of the seed and the request sequence",
              "the model generator is a function of (schemas, draw answers) by construction; what decides C17 is that the code is that "
              "function in every interpreter configuration: cross-process runs under several PYTHONHASHSEED values"],
-    rule="sequences of generated schemas (no unfixed uuid4/datetime/date) faked after set_seed(k) for k in {0, 7, 123456789, 'seed', 3.5}, "
+    rule="sequences of generated schemas (no unfixed uuid4/datetime/date) faked after set_seed(k) for k in {0, 7, 123456789, 'seed', 3.5, b'd42-seed', bytearray, -5, 2**70, ''}, "
          "twice per process, in fresh interpreters with PYTHONHASHSEED in {0,1,2,3} (quick) / 8 values (thorough)")
 
 
